@@ -329,4 +329,5 @@ def run(ctx):
     ctx.guard(r5, ctx, prog)
     from rules import C16_replay
     ctx.guard(C16_replay.r8, ctx, prog)
+    ctx.guard(C16_replay.r9, ctx, prog)
     return prog
